@@ -473,7 +473,7 @@ var spEdits = []string{"dupOperationID", "dropPathParam", "renamePathParam", "ex
 	"arrayNoItemsSchema", "nestedItemsNoItems", "requiredUndefined", "requiredViaAdditional", "dupInheritedProperty",
 	"circularAncestry", "overlapPaths", "badPatternParam", "badPatternHeader", "badPatternSchema", "badPatternItems",
 	"unresolvedSchemaRef", "unresolvedParamRef", "noPaths", "emptyPaths", "bodyViaSharedParam", "noResponses", "refWithSiblingDefault",
-	"refWithExtension", "pathParamNoPlaceholder", "requiredViaAdditionalSchema", "sameBodyNameTwice", "tupleDefaults", "diamondAncestry", "diamondSharedProperty", "cycleBelowStart", "oddPropertyNames", "aliasCycle"}
+	"refWithExtension", "pathParamNoPlaceholder", "requiredViaAdditionalSchema", "sameBodyNameTwice", "tupleDefaults", "diamondAncestry", "diamondSharedProperty", "cycleBelowStart", "oddPropertyNames", "aliasCycle", "sameResponseCodeTwice"}
 
 func (g *spgen) applyEdit(doc M, kind string) bool {
 	ops := docOps(doc)
@@ -534,7 +534,8 @@ func (g *spgen) applyEdit(doc M, kind string) bool {
 			if g.p(60) {
 				np := p
 				if kind == "emptyPlaceholder" {
-					np = p + "/{}"
+					// a whole segment, or inside a segment next to literal text or another placeholder
+					np = p + g.pick([]string{"/{}", "/rev-{}", "/{}.json", "{}", "/photos{}/up"})
 				} else {
 					i := strings.Index(p, "{")
 					j := strings.Index(p, "}")
@@ -718,6 +719,25 @@ func (g *spgen) applyEdit(doc M, kind string) bool {
 			child = M{"allOf": L{M{"$ref": "#/definitions/Base"}, M{"type": "object", "properties": M{"other": M{"type": "string"}}}}}
 		}
 		defs["Child"] = child
+		if g.p(35) { // the ancestor is reached through a definition that is a bare reference to it
+			defs["BaseAlias"] = M{"$ref": "#/definitions/Base"}
+			child["allOf"].(L)[0] = M{"$ref": "#/definitions/BaseAlias"}
+		}
+		return true
+	case "sameResponseCodeTwice":
+		// breaks no rule: parameterless operations whose responses share a code, each with a schema and no headers, later ones
+		// with a bad example: the visited-path bookkeeping must start afresh for each response (C09)
+		if paths == nil {
+			return false
+		}
+		for i := 0; i < 3; i++ {
+			ex := interface{}("fine")
+			if i > 0 {
+				ex = 7
+			}
+			paths[fmt.Sprintf("/resp%d", i)] = M{"get": M{"operationId": fmt.Sprintf("resp%d", i),
+				"responses": M{"200": M{"description": "d", "schema": M{"type": "object", "properties": M{"k": M{"type": "string", "example": ex}}}}}}}
+		}
 		return true
 	case "circularAncestry":
 		defs, _ := doc["definitions"].(M)
